@@ -182,3 +182,20 @@ func init() {
 		},
 	})
 }
+
+func init() {
+	register(&Property{
+		ID: "C02", Title: "Every message is applicable",
+		Explanation: "tbd",
+		Rules: []Rule{
+			{Name: "TYPESTATE/sub-state", Min: 10, Run: ruleStateTable("server.Subscription.state", subStateNames, subStateTable), Doc: "who may move a subscription into which state"},
+			{Name: "PAIR/rpc-resources", Min: 5, Run: ruleRPCResources, Doc: "populate, send, release"},
+			{Name: "DOM/ref-shapes", Min: 5, Run: ruleRefShapes, Doc: "ReleaseRPCResources / populateResources / removeCount / tryDelete shapes"},
+			{Name: "PROV/sent-flag", Min: 2, Run: ruleSentFlag, Doc: "sent-ness read before the state is overwritten"},
+			{Name: "PAIR/edge-sent-once", Min: 3, Run: ruleEdgeSentOnce, Doc: "indirectsent raised once per created edge"},
+			{Name: "PAIR/snapshot-current", Min: 1, Run: ruleSnapshotCurrent, Doc: "re-sendable resource has a current snapshot and a closed gate"},
+			{Name: "DOM/index-kind-guard", Min: 8, Run: ruleIndexKindGuards, Doc: "no stray kind / index"},
+			{Name: "DOM/event-gate", Min: 2, Run: ruleEventGate, Doc: "no event before hand-over"},
+		},
+	})
+}
